@@ -662,7 +662,8 @@ def find_crasher(exe, args, lines, env=None, timeout=300):
         except subprocess.TimeoutExpired:
             return l, "timeout"
         if p.returncode != 0:
-            return l, p.stderr[-3000:]
+            e = p.stderr
+            return l, (e if len(e) < 9000 else e[:5000] + "\n[...]\n" + e[-3000:])
     return None
 
 
@@ -741,7 +742,7 @@ def sanitizers(ck, rng, cases, progs):
             if rc != 0 or "AddressSanitizer" in err:
                 hit = find_crasher(exe, [mode], lines, env=dict(os.environ, **aenv))
                 rep = (hit[1] if hit else err)
-                if "stack-overflow" in rep and "drop_in_place" in rep:
+                if "stack-overflow" in rep and ("drop_in_place" in rep or "drop_slow" in rep):
                     # native recursion of Drop, already reported by the probe
                     ck.violation("deep-drop-stack-overflow", "AddressSanitizer: stack overflow in the recursive Drop of a long chain of thunks (abandoned diverging program)",
                                  {"program_line": hit[0] if hit else None, "stderr": rep[-1500:]})
